@@ -457,9 +457,9 @@ static void setup()
 	add_generator("workload_distribution_exhaustive", 128, case_workload);
 	add_generator("range_exhaustive", 81, case_range);
 	add_generator("closest_location_exhaustive", 8, case_closest_exhaustive);
-	add_generator("closest_location_random", ctx().count(24000, 300000), case_closest_random);
-	add_generator("linear_log_space", ctx().count(64000, 800000), case_spaces);
-	add_generator("list_templates", ctx().count(24000, 300000), case_lists);
-	add_generator("summary_statistics", ctx().count(48000, 600000), case_statistics);
+	add_generator("closest_location_random", ctx().count(24000, 3000000), case_closest_random);
+	add_generator("linear_log_space", ctx().count(64000, 8000000), case_spaces);
+	add_generator("list_templates", ctx().count(24000, 3000000), case_lists);
+	add_generator("summary_statistics", ctx().count(48000, 6000000), case_statistics);
 }
 VERIF_MAIN("C19", setup)
